@@ -530,4 +530,67 @@ theorem rep_run {cs : List Chunk} {v : Variant} (hcs : cs ≠ []) : ∀ (acts : 
       exact ih (inv_step hcs hI hs) (by rw [hk.spec]; exact hl) (rep_step hI hl hR hk) h
     · simp at h
 
+
+/-! ## the driver's scheduler -/
+
+
+/-- whatever the eager scheduler of the driver does (faults included) is a run of the machine -/
+theorem runAuto_run (o : RmOrder) (ft : Option Fault) : ∀ (fuel : Nat) (c : Cfg) (log : List Op),
+    ∃ acts, run c acts = some (runAuto o ft fuel c log).cfg := by
+  intro fuel
+  induction fuel with
+  | zero => intro c log; exact ⟨[], rfl⟩
+  | succ n ih =>
+    intro c log
+    unfold runAuto
+    split
+    · split
+      · rename_i c' hs
+        obtain ⟨acts, ha⟩ := ih c' log
+        exact ⟨.abort :: acts, by simp [run, hs, ha]⟩
+      · exact ⟨[], rfl⟩
+    · split
+      · exact ⟨[], rfl⟩
+      · rename_i a _
+        simp only
+        split
+        · exact ⟨[], rfl⟩
+        · split
+          · rename_i c' hs
+            obtain ⟨acts, ha⟩ := ih c' (match actOp c a with
+              | some op => op :: log
+              | none => log)
+            exact ⟨failOf a :: acts, by simp only [run, hs]; exact ha⟩
+          · exact ⟨[], rfl⟩
+        · split
+          · rename_i c' hs
+            exact ⟨[a], by simp [run, hs]⟩
+          · exact ⟨[], rfl⟩
+        · split
+          · rename_i c' hs
+            obtain ⟨acts, ha⟩ := ih c' (match actOp c a with
+              | some op => op :: log
+              | none => log)
+            exact ⟨a :: acts, by simp only [run, hs]; exact ha⟩
+          · exact ⟨[], rfl⟩
+        · split
+          · rename_i c' hs
+            obtain ⟨acts, ha⟩ := ih c' (match actOp c a with
+              | some op => op :: log
+              | none => log)
+            exact ⟨a :: acts, by simp only [run, hs]; exact ha⟩
+          · exact ⟨[], rfl⟩
+
+
+/-- the states the driver's `attempt` produces (current protocol) are reachable in the sense of `Reach` -/
+theorem attempt_reach {cs : List Chunk} {fs : FS} (h : Reach cs fs) (v : Variant) (hs : HandlerSpec) (o : RmOrder)
+    (ft : Option Fault) : Reach cs (attempt fs v {} cs hs o ft).1.cfg.fs := by
+  unfold attempt
+  split
+  · exact h
+  · exact h
+  · rename_i hst
+    obtain ⟨acts, ha⟩ := runAuto_run o ft (fuelFor (initCfg fs v {} cs hs)) (initCfg fs v {} cs hs) []
+    exact Reach.attempt h hst ha
+
 end Strax.FS
